@@ -28,6 +28,58 @@ static size_t tok_size(const rc_t *c)
     return 1;
 }
 
+/* ---- well-formed documents: nested objects and arrays, names ascending within every object ---------------- */
+static const struct { uint8_t b[4]; size_t n; } POOL[] = {{{0}, 0}, {{0}, 1}, {{'a'}, 1}, {{'a', 0}, 2}, {{'a', 0, 'x'}, 3}, {{'a', 0, 'y'}, 3},
+                                                          {{'a', 'a'}, 2}, {{'b'}, 1}, {{0x80}, 1}, {{0xff, 0}, 2}};
+#define MAXC 48
+static void fill_scalar(rng_t *r, rc_t *c);
+static int gen_value(rng_t *r, rc_t *calls, int nc, int depth);
+static int gen_object(rng_t *r, rc_t *calls, int nc, int depth)
+{
+    int pool_next = 0, wf_k = 0;
+    memset(&calls[nc], 0, sizeof calls[nc]); calls[nc++].op = "ob";
+    int nf = (int) rng_below(r, depth == 0 ? 5 : 3) + (depth == 0 ? 1 : 0);
+    for (int k = 0; k < nf && nc < MAXC - 8 && pool_next < 10; k++) {
+        rc_t *c = &calls[nc]; memset(c, 0, sizeof *c); c->op = "name"; wf_k++;
+        if (wf_k == 3 && rng_chance(r, 1, 3) && pool_next <= 7) { c->len = 126 + rng_below(r, 6); c->byte = 'b'; pool_next = 8; }   /* "bbbb..." sorts after "b" */
+        else { int left = 10 - pool_next; int skip = (int) rng_below(r, (uint32_t) (left > 3 ? 3 : left));
+               int idx = pool_next + skip; pool_next = idx + 1;
+               c->is_lit = true; c->litlen = POOL[idx].n; memcpy(c->lit, POOL[idx].b, POOL[idx].n);
+               if (idx == 9 && wf_k > 1 && rng_chance(r, 1, 2)) { c->is_lit = false; c->len = 200 + (size_t) wf_k; c->byte = 0xff; pool_next = 10; } }
+        nc++;
+        nc = gen_value(r, calls, nc, depth);
+    }
+    memset(&calls[nc], 0, sizeof calls[nc]); calls[nc++].op = "oe";
+    return nc;
+}
+static int gen_value(rng_t *r, rc_t *calls, int nc, int depth)
+{
+    uint32_t k = rng_below(r, depth < 3 ? 10 : 7);
+    if (k >= 7 && nc < MAXC - 10) {
+        if (k == 9) {   /* array of up to three values */
+            memset(&calls[nc], 0, sizeof calls[nc]); calls[nc++].op = "ab";
+            int ne = (int) rng_below(r, 4);
+            for (int i = 0; i < ne && nc < MAXC - 8; i++) nc = gen_value(r, calls, nc, depth + 1);
+            memset(&calls[nc], 0, sizeof calls[nc]); calls[nc++].op = "ae";
+            return nc;
+        }
+        return gen_object(r, calls, nc, depth + 1);
+    }
+    static const char *VOPS[] = {"t", "f", "int", "int", "dbl", "str", "bytes"};
+    rc_t *c = &calls[nc]; memset(c, 0, sizeof *c); c->op = VOPS[k % 7]; fill_scalar(r, c);
+    return nc + 1;
+}
+static void fill_scalar(rng_t *r, rc_t *c)
+{
+    if (!strcmp(c->op, "int")) { int64_t v = rng_chance(r, 2, 3) ? (int64_t) ((uint64_t) INTS[rng_below(r, 15)] + rng_below(r, 5) - 2) : (int64_t) rng_next(r); memcpy(c->v8, &v, 8); }
+    else if (!strcmp(c->op, "dbl")) { uint64_t v = rng_next(r); memcpy(c->v8, &v, 8); }
+    else if (!strcmp(c->op, "str") || !strcmp(c->op, "bytes") || !strcmp(c->op, "name") || !strcmp(c->op, "raw")) {
+        c->len = rng_chance(r, 1, 2) ? LENS[rng_below(r, 17)] : rng_below(r, 40);
+        c->byte = (uint8_t) (!strcmp(c->op, "name") ? 'a' + rng_below(r, 26) : rng_below(r, 256));
+        if (!strcmp(c->op, "name") && c->byte == 0) c->byte = 'n';
+    }
+}
+
 int main(int argc, char **argv)
 {
     uint64_t seed = 1; int n = 200; const char *out = NULL;
@@ -40,36 +92,12 @@ int main(int argc, char **argv)
     rng_t r = {seed * 77 + 5};
     static const char *OPS[] = {"ob", "oe", "ab", "ae", "t", "f", "int", "int", "dbl", "str", "str", "bytes", "name", "raw"};
     for (int run = 0; run < n; run++) {
-        rc_t calls[14]; int nc = 1 + (int) rng_below(&r, 8); size_t total = 0; size_t bounds[48]; int nb = 0;
+        rc_t calls[MAXC]; int nc = 1 + (int) rng_below(&r, 8); size_t total = 0; size_t bounds[2 * MAXC + 2]; int nb = 0;
         bool wellformed = (run % 3) == 0;
-        /* well-formed objects: names from a pool in ascending order (embedded NUL, >= 0x80, shared prefixes, a 130-byte one) */
-        static const struct { uint8_t b[4]; size_t n; } POOL[] = {{{0}, 0}, {{0}, 1}, {{'a'}, 1}, {{'a', 0}, 2}, {{'a', 0, 'x'}, 3}, {{'a', 0, 'y'}, 3},
-                                                                     {{'a', 'a'}, 2}, {{'b'}, 1}, {{0x80}, 1}, {{0xff, 0}, 2}};
-        int pool_next = 0, wf_k = 0;
-        if (wellformed) nc = 2 + 2 * (1 + (int) rng_below(&r, 5));
+        if (wellformed) nc = gen_object(&r, calls, 0, 0);
+        else for (int i = 0; i < nc; i++) { rc_t *c = &calls[i]; memset(c, 0, sizeof *c); c->op = OPS[rng_below(&r, 14)]; fill_scalar(&r, c); }
         for (int i = 0; i < nc; i++) {
-            rc_t *c = &calls[i]; memset(c, 0, sizeof *c);
-            c->op = OPS[rng_below(&r, 14)];
-            if (wellformed) {
-                if (i == 0) c->op = "ob"; else if (i == nc - 1) c->op = "oe";
-                else if ((i % 2) == 1) {       /* a name, ascending */
-                    c->op = "name"; wf_k++;
-                    if (wf_k == 3 && rng_chance(&r, 1, 3)) { c->len = 126 + rng_below(&r, 6); c->byte = 'b'; pool_next = 8; }   /* "bbbb..." sorts after "b" */
-                    else { int left = 10 - pool_next; int skip = (int) rng_below(&r, (uint32_t) (left > 3 ? 3 : (left > 0 ? left : 1)));
-                           int idx = pool_next + skip; if (idx > 9) idx = 9; pool_next = idx + 1;
-                           c->is_lit = true; c->litlen = POOL[idx].n; memcpy(c->lit, POOL[idx].b, POOL[idx].n);
-                           if (idx == 9 && wf_k > 1 && pool_next > 10) { c->is_lit = false; c->len = 200 + (size_t) wf_k; c->byte = 0xff; } }
-                    goto sized;
-                } else { static const char *VOPS[] = {"t", "f", "int", "int", "dbl", "str", "bytes"}; c->op = VOPS[rng_below(&r, 7)]; }
-            }
-            if (!strcmp(c->op, "int")) { int64_t v = rng_chance(&r, 2, 3) ? (int64_t) ((uint64_t) INTS[rng_below(&r, 15)] + rng_below(&r, 5) - 2) : (int64_t) rng_next(&r); memcpy(c->v8, &v, 8); }
-            else if (!strcmp(c->op, "dbl")) { uint64_t v = rng_next(&r); memcpy(c->v8, &v, 8); }
-            else if (!strcmp(c->op, "str") || !strcmp(c->op, "bytes") || !strcmp(c->op, "name") || !strcmp(c->op, "raw")) {
-                c->len = rng_chance(&r, 1, 2) ? LENS[rng_below(&r, 17)] : rng_below(&r, 40);
-                c->byte = (uint8_t) (!strcmp(c->op, "name") ? 'a' + rng_below(&r, 26) : rng_below(&r, 256));
-                if (!strcmp(c->op, "name") && c->byte == 0) c->byte = 'n';
-            }
-sized:
+            rc_t *c = &calls[i];
             bounds[nb++] = total;
             size_t ts = tok_size(c);
             if (PLEN(c) > 0 && strcmp(c->op, "raw")) bounds[nb++] = total + ts - PLEN(c);   /* after the descriptor */
@@ -84,7 +112,7 @@ sized:
         case 2: { size_t b = bounds[rng_below(&r, (uint32_t) nb)]; long d = (long) rng_below(&r, 5) - 2; cap = (long) b + d < 0 ? 0 : (size_t) ((long) b + d); break; }
         default: cap = total ? rng_below(&r, (uint32_t) total + 2) : 0; break;
         }
-        uint8_t *buf[3]; char rets[16]; size_t cnt = 0; int err = 0; bool wv = false; size_t scnt[16];
+        uint8_t *buf[3]; char rets[MAXC]; size_t cnt = 0; int err = 0; bool wv = false; size_t scnt[MAXC];
         /* run k = 2 is the writer's own answer with room for everything (self reference for C04) */
         for (int k = 0; k < 3; k++) {
             size_t kcap = k == 2 ? total * 2 + 4096 : cap;
